@@ -54,7 +54,48 @@ def check(P, R):
         if n.kind == 'test' and any(isinstance(x, ast.Compare) and isinstance(x.ops[0], (ast.Gt, ast.GtE, ast.Lt, ast.LtE))
                                     and 'max_body_size' in names_loaded(x) and len(x.ops) == 1 for x in ast.walk(n.ast)):
             lim_tests.append(n)
-    R.require(lim_tests, f'{f.fq}: no test involving max_body_size')
+    # count-down formulation: `allowance = max_body_size; ...; allowance -= len(part); if allowance < 0: raise`
+    copies = {d.name for n_ in g.nodes for d in rd.gen.get(n_, []) if d.kind == 'assign' and isinstance(d.value, ast.Name) and d.value.id == 'max_body_size'}
+    down_tests = []
+    for n in g.nodes:
+        if n.kind == 'test' and n.ast is not None:
+            cp = compare_parts(n.ast) if not isinstance(n.ast, ast.BoolOp) else None
+            for x in ast.walk(n.ast):
+                cpx = compare_parts(x) if isinstance(x, ast.Compare) else None
+                if cpx and isinstance(cpx[0], ast.Name) and cpx[0].id in copies and cpx[1] in (ast.Lt, ast.LtE) and is_const(cpx[2], 0):
+                    down_tests.append((n, cpx[0].id, cpx[1]))
+    for (n, nm, op) in down_tests:
+        in_loop = T._inside(n.ast, loop.body)
+        R.ob('C13.a', f, n.ast, in_loop, text=f'if {short(n.ast)} [inside the part loop]', detail='' if in_loop else
+             'the size limit is checked outside the loop: the whole body is buffered before it is refused',
+             why='at most limit + one buffer may be read before the 413')
+        decs = [x for st in loop.body for x in walk_shallow(st) if isinstance(x, ast.AugAssign) and isinstance(x.target, ast.Name) and x.target.id == nm
+                and isinstance(x.op, ast.Sub)]
+        good = [x for x in decs if T.is_len_of(x.value, part)]
+        R.ob('C13.a', f, decs[0] if decs else loop, bool(good) and len(good) == len(decs), text=f'{nm} -= len({part})', detail='' if good and len(good) == len(decs) else
+             f'the remaining allowance is not lowered by len({part}) of each part')
+        atoms = T.guard_atoms(f, n)
+        not_none = T.holds_not_none(atoms, nm) or T.holds_not_none(atoms, 'max_body_size')
+        truthy = [(e, h) for (e, h, _t) in atoms if isinstance(e, ast.Name) and e.id in (nm, 'max_body_size') and h]
+        strict = op is ast.Lt
+        okb = not_none and strict
+        R.ob('C13.b', f, n.ast, okb, text=f'{short(n.ast)} under `{nm} is not None`', detail='' if okb else
+             ('the comparison is not strict: a body of exactly max_body_size is refused' if not strict else
+              (f'the limit check is enabled by the truth value of `{truthy[0][0].id}`: once the parts read so far add up to exactly the limit the allowance is 0, the check '
+               f'is switched off for the rest of the stream and a body of any size is accepted (and a limit of 0 disables it altogether)' if truthy else
+               f'the comparison is not guarded by `{nm} is not None`')),
+             why='a body larger than the maximum must be rejected with 413, wherever the part boundaries fall', key_extra='countdown-guard')
+        reach = g.reachable_from(T.succ_by_label(n, 'true'))
+        raises = [m for m in reach if m.kind == 'stmt' and isinstance(m.ast, ast.Raise)]
+        okr = g.exit not in reach and head not in reach and any('BodySizeError' in src(m.ast) for m in raises)
+        R.ob('C13.a', f, n.ast, okr, text=f'{short(n.ast)} -> raise BodySizeError', detail='' if okr else
+             'exceeding the limit does not raise BodySizeError straight away', key_extra='raises')
+        dec_nodes = [g.node_of_stmt(x)[0] for x in good]
+        first = T.succ_by_label(head, 'iter')
+        oko = bool(dec_nodes) and all(g.must_pass(s_, n, dec_nodes) or s_ in dec_nodes for s_ in first)
+        R.ob('C13.a', f, n.ast, oko, text=f'{short(n.ast)} [after the allowance update of this part]', detail='' if oko else
+             'the allowance is tested before the current part was counted', why='a body larger than the maximum must be rejected with 413', key_extra='order')
+    R.require(lim_tests or down_tests, f'{f.fq}: no test involving max_body_size')
     for n in lim_tests:
         parts = bool_operands(n.ast, ast.And)
         cmp = [p for p in parts if isinstance(p, ast.Compare) and not isinstance(p.ops[0], (ast.Is, ast.IsNot))]
@@ -132,9 +173,15 @@ def check(P, R):
             flags = {x.operand.id for x in ast.walk(test.test) if isinstance(x, ast.UnaryOp) and isinstance(x.op, ast.Not)
                      and isinstance(x.operand, ast.Name)}
             cmpx = [p for p in bool_operands(test.test, ast.And) if isinstance(p, ast.Compare)]
-            size_cmp = [p for p in cmpx if isinstance(p.ops[0], (ast.Gt, ast.GtE)) and isinstance(p.left, ast.Name)
+            def _tell(e_):
+                # the write position of the buffer itself is its accumulated size (it is only ever appended to)
+                return isinstance(e_, ast.Call) and call_attr(e_) == 'tell' and not e_.args and isinstance(e_.func.value, ast.Name) and e_.func.value.id == body
+            size_cmp = [p for p in cmpx if isinstance(p.ops[0], (ast.Gt, ast.GtE)) and (isinstance(p.left, ast.Name) or _tell(p.left))
                         and isinstance(p.comparators[0], ast.Name) and p.comparators[0].id in f.params]
-            extra = names - flags - {p.left.id for p in size_cmp} - {p.comparators[0].id for p in size_cmp}
+            extra = names - flags - {p.left.id if isinstance(p.left, ast.Name) else body for p in size_cmp} - {p.comparators[0].id for p in size_cmp}
+            if not size_cmp and cmpx and not any(isinstance(p.left, ast.Name) for p in cmpx):
+                R.undecided('C13.c', f, d.stmt, 'spill condition', f'`{short(test.test)}` measures the accumulated size in a way that has no recogniser')
+                continue
             if not size_cmp:
                 det = 'the switch is not conditioned on `accumulated size > threshold`'
             elif extra:
@@ -207,6 +254,24 @@ def check(P, R):
              ', not the configured max_memfile_size itself: bodies between the configured threshold and the substituted value stay in memory',
              why='a body larger than the in-memory threshold is kept on disk', key_extra='threshold-arg')
 
+        # ... and so is the size limit, whatever the framing / declared length
+        kw = [k for k in c.keywords if k.arg == 'max_body_size']
+        pos = c.args[4] if len(c.args) > 4 else None
+        a_l = kw[0].value if kw else pos
+        vals = []
+        if isinstance(a_l, ast.Name) and fb_.rd.is_local(a_l.id):
+            vals = [d.value for d in fb_.rd.root_defs(cn, a_l.id)]
+        elif a_l is not None:
+            vals = [a_l]
+        ok = bool(vals) and all(v is not None and src(v) == 'self.config.max_body_size' for v in vals)
+        R.ob('C13.a', fb_, c, ok, text='size limit argument = self.config.max_body_size on every path', detail='' if ok else
+             f'the limit handed to the reader may be {[short(v) if v is not None else "?" for v in vals] or "missing"}: on that path the per-part check of _body_read is off - '
+             f'the reader is chosen by the chunked flag, so a chunked request that also declares a small Content-Length is read without any limit',
+             why='a body larger than the maximum is rejected with 413 under both framings', key_extra='limit-arg')
+
+    # a body that moves to disk is the same body for the multipart layer: the pass that spills still feeds the scanner
+    from . import c06
+    c06.check_scanner_fed(P, R, 'C13.c', why='a body larger than the in-memory threshold is kept on disk with identical content (its parts included)')
     check_memory_budget(P, R)
 
 
